@@ -373,7 +373,7 @@ func (sc *scenario) term(backend string) string {
 var safeNames = []string{"a", "b", "ab", "a.b", "web", "a-1", "A", "a_b", "x", "app", "app2", "web2"}
 var safeEntries = []string{"a", "b", "c", "web", "e.1", "E", "n1", "web2", "web-canary", "ab"}
 var slashNames = []string{"a/b", "b/c", ".", "..", "/a", "a/", "a//b", "a/.", "./a", "a/../b"}
-var globNames = []string{"a*", "a?", "*", "?b", "**"}
+var globNames = []string{"a*", "a?", "*", "?b", "**", "a[b", "[ab]", `a\b`, `\`, "a]", `a\*`}
 var nodeNames = []string{"n1", "n2", "node-3", "a", "b"}
 
 func hasAny(s, chars string) bool { return strings.ContainsAny(s, chars) }
@@ -479,6 +479,11 @@ func procCorpus() []procCase {
 		// only markers, no workloads; the same node under several entrypoints
 		{nil, mk([][4]string{{"app", "web", "n1"}, {"app", "web", "n1"}, {"app", "web2", "n1"}, {"app2", "web", "n1"}, {"ap", "web", "n1"}})},
 		{mkAdds([][3]string{{"a", "b", "n1"}, {"ab", "b", "n1"}}), mk([][4]string{{"a", "b", "n1"}, {"a", "bc", "n1"}, {"ab", "b", "n2"}, {"a", "b", "n2"}})},
+		// names rejected by validation: ".." lets keys escape /deploy and /processing and meet at the root
+		{mkAdds([][3]string{{"..", "e", "n1"}, {"a", "e", "n1"}}), mk([][4]string{{"..", "e", "n1"}, {"..", "e", "n2"}, {"a", "..", "n1"}})},
+		{mkAdds([][3]string{{"a", "..", "n1"}, {"b", "e", "n1"}}), mk([][4]string{{"b", "..", "n1"}, {".", "e", "n1"}})},
+		// glob metacharacters in names of markers and workloads
+		{mkAdds([][3]string{{"a*", "e", "n1"}, {"ab", "e", "n1"}, {"a[b", "e", "n1"}, {`a\b`, "e", "n1"}}), mk([][4]string{{"a*", "e", "n1"}, {"ab", "e", "n1"}, {"a?", "e", "n2"}})},
 	}
 }
 
@@ -618,10 +623,9 @@ func TestC24(t *testing.T) {
 		}
 		adds := randomAdds(r, mode)
 		var procs []procRec
-		// deployments in flight under names related to the workloads' names.  Not combined with
-		// '/'-and-dot names: a ".." element lets a key escape its root, and the model keeps the
-		// /deploy and /processing key spaces apart (exact only while no key escapes).
-		if i%2 == 0 && mode != 1 {
+		// deployments in flight under names related to the workloads' names (also with '/'-and-dot
+		// names: a ".." element lets deploy and processing keys meet in the one key space)
+		if i%2 == 0 {
 			procs = randomProcs(r, adds)
 		}
 		for _, e := range envs {
